@@ -11,7 +11,7 @@ ID = "C19"
 LEVEL = "exploration"
 RULE = ("Metamorphic: Hypothesis generates a multiset Wf of 2-5 well-formed entries over home and "
         "$topdir trash dirs, a set M of 1-4 malformed neighbours {non-.trashinfo file in info/, "
-        "empty, truncated, binary, non-UTF-8 info, no Path, no DeletionDate, invalid date, info "
+        "empty, truncated, binary, non-UTF-8 info, no Path, no DeletionDate, invalid date (also well-shaped impossible ones such as Feb 30, hour 24, year 0), info "
         "without payload, payload without info, directory named *.trashinfo (one, or 150 of them with the "
         "command's descriptor table limited to 128), dangling symlink named *.trashinfo, info named "
         "..trashinfo / ...trashinfo; optionally claiming the same original location as a well-formed entry}, a readdir permutation seed (os.listdir results are permuted by the "
@@ -24,7 +24,7 @@ ASSUMPTIONS = ["the entry to restore is addressed by the index printed for it in
 
 MKINDS = ["non_trashinfo", "empty", "truncated", "binary", "nonutf8", "no_path", "no_date",
           "bad_date", "no_payload", "orphan", "dir_trashinfo", "dangling_trashinfo", "long_orphan",
-          "long_non_trashinfo", "tz_date", "dot_info", "dotdot_info", "many_dirs"]
+          "long_non_trashinfo", "tz_date", "dot_info", "dotdot_info", "many_dirs", "impossible_date"]
 CMDS = ["list", "list_size", "list_files", "restore_date", "restore_path", "restore_none", "rm", "empty", "empty_days"]
 
 
@@ -102,6 +102,11 @@ def build(case, with_m):
             elif k == "tz_date":
                 # RFC 3339 style date with a zone: not the spec's format, i.e. an invalid date
                 z = [b"2001-02-03T04:05:06Z", b"2001-02-03T04:05:06+01:00", b"2001-02-03T04:05:06+0100"][len(nm) % 3]
+                tw.nodes += [{"p": ip, "t": "b", "b": list(b"[Trash Info]\nPath=" + oracle.pct_encode(pv) + b"\nDeletionDate=" + z + b"\n")}, pay]
+            elif k == "impossible_date":
+                # the right shape, but no such day / hour / second
+                z = [b"2021-02-30T10:00:00", b"2001-13-01T00:00:00", b"2001-01-01T24:00:00",
+                     b"2001-01-01T00:00:60", b"0000-00-00T00:00:00", b"2001-04-31T00:00:00"][(len(nm) + case["perm"]) % 6]
                 tw.nodes += [{"p": ip, "t": "b", "b": list(b"[Trash Info]\nPath=" + oracle.pct_encode(pv) + b"\nDeletionDate=" + z + b"\n")}, pay]
             elif k == "no_payload":
                 tw.nodes += [{"p": ip, "t": "b", "b": list(good)}]
